@@ -925,6 +925,8 @@ COLUMN:
         case *IntegerLiteral:
             s.Val = -1*s.Val
             $$ = $2
+        case *UnsignedLiteral:
+            $$ = negateUnsignedLiteral(yylex, s)
         default:
         	$$ = &BinaryExpr{Op:Token(MUL), LHS:&IntegerLiteral{Val:-1}, RHS:$2, depth: depthCheck(yylex, 1 + $2.Depth())}
         }
@@ -1599,7 +1601,7 @@ COLUMN_VAREF:
     }
     |INTEGER
     {
-        $$ = &IntegerLiteral{Val:$1}
+        $$ = integerLiteral($1, $<str>1)
     }
     |STRING
     {
